@@ -325,6 +325,15 @@ class LazyDictV:
         return f"LazyDictV<{self.ident} overlay={len(self.overlay)}>"
 
 
+class LazySetV:
+    """set with arbitrary (unbounded) contents: a LazyDictV of its members"""
+
+    __slots__ = ("d",)
+
+    def __init__(self, d):
+        self.d = d
+
+
 class MapV:
     """dict with symbolic contents over the universal value sort (pyvc/valenc.py):
     dom : Val -> Bool, val : Val -> Val, typed by descriptors."""
